@@ -325,7 +325,7 @@ func checkC02(c *Check) {
 		var bindF, delF *TFact
 		for i := range t.Facts {
 			f := t.Facts[i]
-			if f.EP != s.EP || f.Fn != s.Fn {
+			if f.EP != s.EP || !inFnOrHelper(f, s.Fn) {
 				continue
 			}
 			switch f.Kind {
@@ -346,7 +346,7 @@ func checkC02(c *Check) {
 			}
 		}
 		for _, f := range t.Of("append") {
-			if f.EP == s.EP && sameOrg(f.U, s.Val) && (f.Fn == s.Fn) {
+			if f.EP == s.EP && sameOrg(f.U, s.Val) && inFnOrHelper(f, s.Fn) {
 				na++
 			}
 		}
@@ -608,4 +608,28 @@ func queuePrivate(c *Check, t *Tracker) {
 		})
 	}
 	c.Floor("uses of the hold-queue field examined", 6, n)
+}
+
+
+// inFnOrHelper: the fact was recorded in fn or in a function called (in this
+// walk) from fn.
+func inFnOrHelper(f TFact, fn *ssa.Function) bool {
+	if f.Fn == fn {
+		return true
+	}
+	name := funcDisplayName(fn)
+	for i, s := range f.Stack {
+		if s != name {
+			continue
+		}
+		// reached from fn by plain calls, not through a callback of the
+		// locked map (a callback is a code path of its own with its own rules)
+		for _, t := range f.Stack[i+1:] {
+			if strings.Contains(t, "GenericSyncMap") {
+				return false
+			}
+		}
+		return true
+	}
+	return false
 }
